@@ -62,3 +62,12 @@ Print Assumptions C13_generic_ema.
 Theorem C13_generic_xm : forall c s x, (let '(s', y) := Signalo.Model.Generic.g_xm_step Signalo.Base.Arith.Qar (Signalo.Model.Smooth.xpre c) (Signalo.Model.Smooth.xmid c) (Signalo.Model.Smooth.xpost c) s x in (Signalo.Proofs.Generic.xm_of s', y)) = Signalo.Model.Smooth.xm_step c (Signalo.Proofs.Generic.xm_of s) x.
 Proof. exact Signalo.Proofs.Generic.gq_xm. Qed.
 Print Assumptions C13_generic_xm.
+
+(* No false alarm: the boolean reading of this property that the correspondence check evaluates on the IMPLEMENTATION's
+   outputs (Check/C13.v, verdict bit 2) can never fail on outputs that agree with the model (bit 1 clear); side conditions,
+   where there are any, are boolean and say which recorded observations the model comparison does not cover. *)
+From Coq Require Import NArith.
+From Signalo Require Base.Report Check.C13 Proofs.Sound_C13.
+Theorem C13_checker_no_false_alarm : forall c : Signalo.Check.C13.case, N.land (Signalo.Base.Report.code (Signalo.Check.C13.check c)) 3 <> 2%N.
+Proof. exact Signalo.Proofs.Sound_C13.C13_check_sound. Qed.
+Print Assumptions C13_checker_no_false_alarm.
